@@ -31,12 +31,37 @@ type cliRun struct {
 	err    string
 }
 
+// cliStdinPieces > 1: runCLI writes the document to the command's standard input in that many pieces.
+var cliStdinPieces int
+
 func runCLI(bin string, args []string, stdin []byte, wrap []string) cliRun {
 	var r cliRun
 	argv := append(append([]string{}, wrap...), bin)
 	argv = append(argv, args...)
 	cmd := exec.Command(argv[0], argv[1:]...)
-	cmd.Stdin = bytes.NewReader(stdin)
+	var feed func()
+	if cliStdinPieces > 1 && len(stdin) >= cliStdinPieces {
+		// the document arrives on a pipe in several writes with pauses between them (a producer that is slower
+		// than the command): every read returns less than was asked for, and the last piece comes late
+		if w, err := cmd.StdinPipe(); err == nil {
+			pieces := cliStdinPieces
+			feed = func() {
+				n := len(stdin) / pieces
+				for i := 0; i < pieces; i++ {
+					end := (i + 1) * n
+					if i == pieces-1 {
+						end = len(stdin)
+					}
+					w.Write(stdin[i*n : end])
+					time.Sleep(40 * time.Millisecond)
+				}
+				w.Close()
+			}
+		}
+	}
+	if feed == nil {
+		cmd.Stdin = bytes.NewReader(stdin)
+	}
 	var so, se bytes.Buffer
 	cmd.Stdout, cmd.Stderr = &so, &se
 	done := make(chan error, 1)
@@ -44,6 +69,9 @@ func runCLI(bin string, args []string, stdin []byte, wrap []string) cliRun {
 		r.err = err.Error()
 		r.status = -1
 		return r
+	}
+	if feed != nil {
+		go feed()
 	}
 	go func() { done <- cmd.Wait() }()
 	select {
@@ -400,6 +428,42 @@ func init() {
 				}
 				judgeCLI(c, legacy, doc, files, -1)
 				c.Count("empty-patch-runs")
+			}},
+			{Name: "stdin-arriving-in-pieces", Count: n(120, 1500), Run: func(c *core.Ctx, idx int) {
+				legacy := idx%2 == 0
+				doc, files := genCLICase(c, legacy)
+				cliStdinPieces = 2 + c.R.Intn(3)
+				defer func() { cliStdinPieces = 0 }()
+				judgeCLI(c, legacy, doc, files, -1)
+				c.Count("stdin-in-pieces-runs")
+			}},
+			{Name: "many-patch-files", Exhaustive: true, Count: func(core.Tier) int { return 2 * 4 * 4 }, Run: func(c *core.Ctx, idx int) {
+				// hundreds of -p options (an exit status has eight bits; argument lists and loops have their own bounds);
+				// the one bad file, if any, stands at a position around a multiple of 256
+				legacy := idx%2 == 0
+				idx /= 2
+				total := []int{255, 256, 257, 513}[idx%4]
+				idx /= 4
+				bad := []int{-1, 255, 256, 512}[idx%4] // 1-based position of the failing file
+				if bad > total {
+					bad = total
+				}
+				doc := `{"n":[],"k":"v"}`
+				var files []cliFile
+				for i := 1; i <= total; i++ {
+					switch {
+					case i == bad && i%2 == 0:
+						files = append(files, cliFile{"failing", `[{"op":"test","path":"/k","value":"other"}]`})
+					case i == bad:
+						files = append(files, cliFile{"malformed", `[{"op":"add","path":"/x","value":1}`})
+					case i%64 == 0:
+						files = append(files, cliFile{"valid", fmt.Sprintf(`[{"op":"add","path":"/n/-","value":%d}]`, i)})
+					default:
+						files = append(files, cliFile{"valid", `[]`})
+					}
+				}
+				judgeCLI(c, legacy, doc, files, -1)
+				c.Count("many-files-runs")
 			}},
 			{Name: "order-permutations", Count: n(600, 8000), Run: func(c *core.Ctx, idx int) {
 				// three valid patches, every order; different orders must give what the library gives for that order
